@@ -32,6 +32,16 @@ class Ctx:
         self.rules = {}
         self.sites_examined = 0
         self.known = _load_known(prop)
+        self.cfg = "dev"
+        self.configs = ["dev"]
+
+    def switch_config(self, name, prog):
+        """re-run the same rules on another build configuration; sites are suffixed so that the
+        obligations of the two configurations stay distinct (known-finding keys are not)."""
+        self.cfg = name
+        self.prog = prog
+        if name not in self.configs:
+            self.configs.append(name)
 
     # ---------------------------------------------------------------- recording
     def rule(self, rid, text):
@@ -39,10 +49,10 @@ class Ctx:
 
     def ok(self, rule, key, how, loc=None, nontrivial=True):
         self.obligations.append({"rule": rule, "site": key, "loc": loc, "discharged": True,
-                                 "how": how, "nontrivial": nontrivial})
+                                 "how": how, "nontrivial": nontrivial, "cfg": self.cfg})
 
     def bad(self, rule, key, what, loc=None, path=None):
-        rec = {"rule": rule, "site": key, "loc": loc, "discharged": False, "what": what}
+        rec = {"rule": rule, "site": key, "loc": loc, "discharged": False, "what": what, "cfg": self.cfg}
         if path:
             rec["path"] = path
         self.obligations.append(rec)
@@ -84,7 +94,7 @@ class Ctx:
                 known_hit.append((k, ent))
             else:
                 fresh.append(v)
-        nontriv = {(o["rule"], o["site"]) for o in self.obligations if o.get("nontrivial", True)}
+        nontriv = {(o["rule"], o["site"], o.get("cfg")) for o in self.obligations if o.get("nontrivial", True)}
         samples = []
         seen_rules = set()
         for o in self.obligations:
@@ -115,7 +125,7 @@ class Ctx:
                     "targets": sorted(prog.targets),
                     "functions": prog.counts["fns"], "blocks": prog.counts["blocks"],
                     "calls": prog.counts["calls"], "asserts": prog.counts["asserts"],
-                    "profile": prog.info.get("profile"), "facts_key": prog.info.get("key"),
+                    "profile": prog.info.get("profile"), "facts_key": prog.info.get("key"), "configurations": self.configs,
                 },
                 "declined_clauses": self.declined,
                 "known_findings_hit": [k for k, _ in known_hit],
@@ -142,7 +152,7 @@ class Ctx:
                 with open(path, "w") as fh:
                     json.dump({"property": self.prop, "key": k, "violation": v,
                                "rule_text": self.rules.get(v["rule"])}, fh, indent=1)
-                print("%s [%s] %s: %s" % (v.get("loc") or "-", v["rule"], v["site"], v["what"]))
+                print("%s [%s]%s %s: %s" % (v.get("loc") or "-", v["rule"], "" if v.get("cfg", "dev") == "dev" else "(" + v["cfg"] + ")", v["site"], v["what"]))
                 print("VIOLATION property=%s replay=%s" % (self.prop, path))
             return 1
         print("%s: %d obligations discharged, %d known finding(s), %.1fs"
